@@ -39,6 +39,11 @@ Local Arguments check_constraints : simpl never.
 Local Arguments fulfill : simpl never.
 Local Arguments minimize : simpl never.
 Local Arguments fix_ty : simpl never.
+(* stores are kept in explicit form during the run: chains of set_* make the
+   kernel's conversion check at Qed exponential *)
+Local Arguments set_cell s v c /.
+Local Arguments set_cset s i l /.
+Local Arguments set_constr s i k /.
 
 (* ---------- the programs ---------- *)
 
@@ -420,4 +425,455 @@ Proof.
   destruct t as [|[|t']]; [|now elim NB|]; eexists; unfold st1k; run; reflexivity.
 Qed.
 
+
+(* applied to Bottom itself: accepted (Bottom is below everything), nothing is determined *)
+Lemma stage3u_bottom F xs n0 n1 n2 n3 n4 n5 n6 n7 n8 sc :
+  variance H (S (S F)) = [true] ->
+  n0 = S n1 -> n1 = S n2 -> n2 = S n3 -> n3 = S n4 -> n4 = S n5 -> n5 = S n6 -> n6 = S n7 -> n7 = S n8 ->
+  apply H n0 (O Function [V 0; V 1]) (O Bottom xs) true (st1u sc (S (S F))) =
+  MOk (V 1) (st1u sc (S (S F))).
+Proof.
+  intros VF E0 E1 E2 E3 E4 E5 E6 E7. pose proof (wf_fun H W) as Vf.
+  assert (BF : basic H (S (S F)) = false) by (apply nonbasic; rewrite VF; discriminate).
+  unfold st1u; run; reflexivity.
+Qed.
+
+(* ---------- whole programs, any sufficient fuel ---------- *)
+
+Lemma chain9 n0 : 9 <= n0 -> exists n1 n2 n3 n4 n5 n6 n7 n8 n9,
+  n0 = S n1 /\ n1 = S n2 /\ n2 = S n3 /\ n3 = S n4 /\ n4 = S n5 /\ n5 = S n6 /\ n6 = S n7 /\
+  n7 = S n8 /\ n8 = S n9.
+Proof.
+  intros L. exists (n0 - 1), (n0 - 2), (n0 - 3), (n0 - 4), (n0 - 5), (n0 - 6), (n0 - 7), (n0 - 8), (n0 - 9).
+  repeat split; lia.
+Qed.
+
+Lemma unary_SS F : variance H F = [true] -> exists F', F = S (S F').
+Proof. intros V. apply comp_SS. rewrite V. discriminate. Qed.
+
+Definition good (b : nat) : Prop := variance H b = [] /\ b <> Top /\ b <> Bottom.
+
+Lemma good_SS' b : good b -> exists b', b = S (S b').
+Proof. apply (good_SS H). Qed.
+
+(* the unary family applied to F(t) *)
+Theorem engine_unary_ok F t fuel sc :
+  variance H F = [true] -> variance H t = [] -> t <> Bottom -> 9 <= fuel ->
+  run_cmds H fuel (app_prog (unary_schema F) (TOp F [TOp t []])) 0 [] (empty_store sc) =
+  (None, [O Function [V 0; V 1]; O F [O t []]; O t []], st3u sc F t).
+Proof.
+  intros VF Vt NB L. destruct (unary_SS F VF) as (F' & ->).
+  destruct (chain9 fuel L) as (n1 & n2 & n3 & n4 & n5 & n6 & n7 & n8 & n9 & E0 & E1 & E2 & E3 & E4 & E5 & E6 & E7 & E8).
+  match goal with |- run_cmds _ _ (app_prog _ ?x) _ _ _ = _ =>
+    assert (LD : ty_depth x < fuel) by (cbn; lia) end.
+  rewrite (run3' H fuel _ _ _ _ _ LD
+             (stage1u F' fuel n1 n2 n3 n4 n5 n6 n7 n8 sc VF E0 E1 E2 E3 E4 E5 E6 E7)).
+  cbn [inj map].
+  now rewrite (stage3u_ok F' t fuel n1 n2 n3 n4 n5 n6 n7 n8 sc VF Vt NB E0 E1 E2 E3 E4 E5 E6 E7).
+Qed.
+
+Theorem engine_unary_bot F fuel sc :
+  variance H F = [true] -> 9 <= fuel ->
+  run_cmds H fuel (app_prog (unary_schema F) (TOp F [TOp Bottom []])) 0 [] (empty_store sc) =
+  (None, [O Function [V 0; V 1]; O F [O Bottom []]; V 1], st1u sc F).
+Proof.
+  intros VF L. destruct (unary_SS F VF) as (F' & ->).
+  destruct (chain9 fuel L) as (n1 & n2 & n3 & n4 & n5 & n6 & n7 & n8 & n9 & E0 & E1 & E2 & E3 & E4 & E5 & E6 & E7 & E8).
+  match goal with |- run_cmds _ _ (app_prog _ ?x) _ _ _ = _ =>
+    assert (LD : ty_depth x < fuel) by (cbn; lia) end.
+  rewrite (run3' H fuel _ _ _ _ _ LD
+             (stage1u F' fuel n1 n2 n3 n4 n5 n6 n7 n8 sc VF E0 E1 E2 E3 E4 E5 E6 E7)).
+  cbn [inj map].
+  now rewrite (stage3u_bot F' fuel n1 n2 n3 n4 n5 n6 n7 n8 sc VF E0 E1 E2 E3 E4 E5 E6 E7).
+Qed.
+
+Theorem engine_unary_bottom F xs fuel sc :
+  variance H F = [true] -> 9 <= fuel -> ty_depth (TOp Bottom xs) < fuel ->
+  run_cmds H fuel (app_prog (unary_schema F) (TOp Bottom xs)) 0 [] (empty_store sc) =
+  (None, [O Function [V 0; V 1]; inj (TOp Bottom xs); V 1], st1u sc F).
+Proof.
+  intros VF L LD. destruct (unary_SS F VF) as (F' & ->).
+  destruct (chain9 fuel L) as (n1 & n2 & n3 & n4 & n5 & n6 & n7 & n8 & n9 & E0 & E1 & E2 & E3 & E4 & E5 & E6 & E7 & E8).
+  rewrite (run3' H fuel _ _ _ _ _ LD
+             (stage1u F' fuel n1 n2 n3 n4 n5 n6 n7 n8 sc VF E0 E1 E2 E3 E4 E5 E6 E7)).
+  cbn [inj].
+  now rewrite (stage3u_bottom F' _ fuel n1 n2 n3 n4 n5 n6 n7 n8 sc VF E0 E1 E2 E3 E4 E5 E6 E7).
+Qed.
+
+(* ... applied to any concrete type with another head *)
+Theorem engine_unary_reject F x fuel sc :
+  variance H F = [true] -> ty_op x <> Bottom -> ty_op x <> F -> 9 <= fuel -> ty_depth x < fuel ->
+  run_cmds H fuel (app_prog (unary_schema F) x) 0 [] (empty_store sc) =
+  (Some (if basic H (ty_op x) then ESubtypeMismatch else ETypeMismatch, 2),
+   [O Function [V 0; V 1]; inj x], st1u sc F).
+Proof.
+  intros VF NB NF L LD. destruct (unary_SS F VF) as (F' & ->).
+  destruct (chain9 fuel L) as (n1 & n2 & n3 & n4 & n5 & n6 & n7 & n8 & n9 & E0 & E1 & E2 & E3 & E4 & E5 & E6 & E7 & E8).
+  rewrite (run3' H fuel _ _ _ _ _ LD
+             (stage1u F' fuel n1 n2 n3 n4 n5 n6 n7 n8 sc VF E0 E1 E2 E3 E4 E5 E6 E7)).
+  destruct x as [g xs]. cbn [inj ty_op] in *.
+  destruct (variance H g) as [|v vs] eqn:Vg.
+  - rewrite (basic_of H _ Vg).
+    now rewrite (stage3u_base F' g _ fuel n1 n2 n3 n4 n5 n6 n7 n8 sc VF Vg NB E0 E1 E2 E3 E4 E5 E6 E7).
+  - assert (Vg' : variance H g <> []) by (rewrite Vg; discriminate).
+    rewrite (nonbasic _ Vg').
+    now rewrite (stage3u_comp F' g _ fuel n1 n2 n3 n4 n5 n6 n7 n8 sc VF Vg' NF E0 E1 E2 E3 E4 E5 E6 E7).
+Qed.
+
+(* keys *)
+Lemma keys_ops C R : variance H C = [true] -> variance H R = [true; true] ->
+  exists C' R', C = S (S C') /\ R = S (S R') /\
+    Nat.eqb C' R' = false /\ Nat.eqb R' C' = false /\ Nat.eqb C' 1 = false.
+Proof.
+  intros VC VR. destruct (unary_SS C VC) as (C' & ->).
+  destruct (comp_SS R) as (R' & ->); [rewrite VR; discriminate|].
+  exists C', R'. repeat split; apply Nat.eqb_neq; intros E; subst.
+  - rewrite VC in VR. discriminate.
+  - rewrite VC in VR. discriminate.
+  - change (S (S 1)) with Function in VC. rewrite (wf_fun H W) in VC. discriminate.
+Qed.
+
+Theorem engine_keys_R C R t1 t2 fuel sc :
+  variance H C = [true] -> variance H R = [true; true] -> good t1 -> good t2 -> 9 <= fuel ->
+  run_cmds H fuel (app_prog (keys_schema C R) (TOp R [TOp t1 []; TOp t2 []])) 0 [] (empty_store sc) =
+  (None, [O Function [V 0; O C [V 1]]; O R [O t1 []; O t2 []]; O C [V 1]], st3k_R sc R t1 t2).
+Proof.
+  intros VC VR G1 G2 L.
+  destruct (keys_ops C R VC VR) as (C' & R' & -> & -> & NCR & NRC & NCF).
+  destruct (good_SS' t1 G1) as (t1' & ->). destruct (good_SS' t2 G2) as (t2' & ->).
+  destruct (chain9 fuel L) as (n1 & n2 & n3 & n4 & n5 & n6 & n7 & n8 & n9 & E0 & E1 & E2 & E3 & E4 & E5 & E6 & E7 & E8).
+  match goal with |- run_cmds _ _ (app_prog _ ?x) _ _ _ = _ =>
+    assert (LD : ty_depth x < fuel) by (cbn; lia) end.
+  rewrite (run3' H fuel _ _ _ _ _ LD
+             (stage1k C' R' fuel n1 n2 n3 n4 n5 n6 n7 n8 sc VC VR NCR NRC E0 E1 E2 E3 E4 E5 E6 E7)).
+  cbn [inj map].
+  now rewrite (stage3k_R C' R' t1' t2' fuel n1 n2 n3 n4 n5 n6 n7 n8 n9 sc VC VR NCR NRC NCF
+                 (proj1 G1) (proj1 G2) E0 E1 E2 E3 E4 E5 E6 E7 E8).
+Qed.
+
+Theorem engine_keys_C C R t fuel sc :
+  variance H C = [true] -> variance H R = [true; true] -> good t -> 9 <= fuel ->
+  run_cmds H fuel (app_prog (keys_schema C R) (TOp C [TOp t []])) 0 [] (empty_store sc) =
+  (None, [O Function [V 0; O C [V 1]]; O C [O t []]; O C [V 1]], st3k_C sc C t).
+Proof.
+  intros VC VR G1 L.
+  destruct (keys_ops C R VC VR) as (C' & R' & -> & -> & NCR & NRC & NCF).
+  destruct (good_SS' t G1) as (t' & ->).
+  destruct (chain9 fuel L) as (n1 & n2 & n3 & n4 & n5 & n6 & n7 & n8 & n9 & E0 & E1 & E2 & E3 & E4 & E5 & E6 & E7 & E8).
+  match goal with |- run_cmds _ _ (app_prog _ ?x) _ _ _ = _ =>
+    assert (LD : ty_depth x < fuel) by (cbn; lia) end.
+  rewrite (run3' H fuel _ _ _ _ _ LD
+             (stage1k C' R' fuel n1 n2 n3 n4 n5 n6 n7 n8 sc VC VR NCR NRC E0 E1 E2 E3 E4 E5 E6 E7)).
+  cbn [inj map].
+  now rewrite (stage3k_C C' R' t' fuel n1 n2 n3 n4 n5 n6 n7 n8 n9 sc VC VR NCR NRC NCF
+                 (proj1 G1) E0 E1 E2 E3 E4 E5 E6 E7 E8).
+Qed.
+
+Theorem engine_keys_base C R t fuel sc :
+  variance H C = [true] -> variance H R = [true; true] -> variance H t = [] -> t <> Bottom -> 9 <= fuel ->
+  exists s', run_cmds H fuel (app_prog (keys_schema C R) (TOp t [])) 0 [] (empty_store sc) =
+  (Some (EConstraintViolation, 2), [O Function [V 0; O C [V 1]]; O t []], s').
+Proof.
+  intros VC VR Vt NB L.
+  destruct (keys_ops C R VC VR) as (C' & R' & -> & -> & NCR & NRC & NCF).
+  destruct (chain9 fuel L) as (n1 & n2 & n3 & n4 & n5 & n6 & n7 & n8 & n9 & E0 & E1 & E2 & E3 & E4 & E5 & E6 & E7 & E8).
+  assert (LD : ty_depth (TOp t []) < fuel) by (cbn; lia).
+  destruct (stage3k_base C' R' t fuel n1 n2 n3 n4 n5 n6 n7 n8 n9 sc VC VR NCR NRC NCF
+                 Vt NB E0 E1 E2 E3 E4 E5 E6 E7 E8) as (s' & E3k).
+  eexists. rewrite (run3' H fuel _ _ _ _ _ LD
+             (stage1k C' R' fuel n1 n2 n3 n4 n5 n6 n7 n8 sc VC VR NCR NRC E0 E1 E2 E3 E4 E5 E6 E7)).
+  cbn [inj map]. rewrite E3k. reflexivity.
+Qed.
+
+(* ---------- the specification side ---------- *)
+
+Lemma flat_var i : flatp (SVar i). Proof. exact Logic.I. Qed.
+Lemma flat_wild : flatp SWild. Proof. exact Logic.I. Qed.
+
+Lemma wf_base t : variance H t = [] -> wf_ty H (TOp t []).
+Proof. intros V. apply wf_ty_unfold. rewrite V. auto. Qed.
+
+(* unary: F(y) fits F(b) *)
+Lemma spec_unary_ok F y : variance H F = [true] -> wf_ty H y ->
+  accept_spec H (TOp F [y]) (unary_alts F) = true /\ Fits H (TOp F [y]) (SOp F [SVar 1]).
+Proof.
+  intros VF Wy.
+  assert (VF' : variance H F <> []) by (rewrite VF; discriminate).
+  assert (E : fitsb H (TOp F [y]) (SOp F [SVar 1]) = true).
+  { rewrite (fitsb_flat H W) by (auto using flat_var). now rewrite Nat.eqb_refl, orb_true_r. }
+  split.
+  - unfold accept_spec, unary_alts. cbn [existsb]. now rewrite E.
+  - apply (fitsb_spec H W); auto.
+    + apply wf_ty_unfold. rewrite VF. auto.
+    + apply wf_sty_unfold. rewrite VF. split; auto. constructor; [exact Logic.I|constructor].
+    + unfold linear. cbn. constructor; [intros []|constructor].
+Qed.
+
+Lemma spec_unary_bottom F xs : variance H F = [true] ->
+  accept_spec H (TOp Bottom xs) (unary_alts F) = true.
+Proof.
+  intros VF. unfold accept_spec, unary_alts. cbn [existsb].
+  rewrite (fitsb_flat H W) by (auto using flat_var; rewrite VF; discriminate). reflexivity.
+Qed.
+
+Lemma spec_unary_reject F x : variance H F = [true] -> ty_op x <> Bottom -> ty_op x <> F ->
+  accept_spec H x (unary_alts F) = false /\ ~ Fits H x (SOp F [SVar 1]).
+Proof.
+  intros VF NB NF. destruct x as [g xs]. cbn [ty_op] in *.
+  assert (E : fitsb H (TOp g xs) (SOp F [SVar 1]) = false).
+  { rewrite (fitsb_flat H W) by (auto using flat_var; rewrite VF; discriminate).
+    apply Nat.eqb_neq in NB, NF. now rewrite NB, NF. }
+  split.
+  - unfold accept_spec, unary_alts. cbn [existsb]. now rewrite E.
+  - intros Ft. apply (fitsb_complete H W) in Ft. congruence.
+Qed.
+
+Lemma Fits_iff_fitsb x alt (b : bool) : wf_ty H x -> wf_sty H alt -> linear alt ->
+  fitsb H x alt = b -> (Fits H x alt <-> b = true).
+Proof. intros Wx Wa La <-. symmetry. now apply (fitsb_spec H W). Qed.
+
+Lemma wf_alt_C C : variance H C = [true] -> wf_sty H (SOp C [SVar 1]) /\ linear (SOp C [SVar 1]).
+Proof.
+  intros VC. split.
+  - apply wf_sty_unfold. rewrite VC. split; auto. constructor; [exact Logic.I|constructor].
+  - unfold linear. cbn. constructor; [intros []|constructor].
+Qed.
+Lemma wf_alt_R R : variance H R = [true; true] ->
+  wf_sty H (SOp R [SVar 1; SWild]) /\ linear (SOp R [SVar 1; SWild]).
+Proof.
+  intros VR. split.
+  - apply wf_sty_unfold. rewrite VR. split; auto. repeat constructor.
+  - unfold linear. cbn. constructor; [intros []|constructor].
+Qed.
+
+(* keys: which alternatives a concrete argument fits depends on its head only *)
+Lemma spec_keys C R x : variance H C = [true] -> variance H R = [true; true] -> wf_ty H x ->
+  let fC := Nat.eqb (ty_op x) Bottom || Nat.eqb (ty_op x) C in
+  let fR := Nat.eqb (ty_op x) Bottom || Nat.eqb (ty_op x) R in
+  accept_spec H x (keys_alts C R) = fC || fR /\
+  filter (fitsb H x) (keys_alts C R) =
+    (if fC then [SOp C [SVar 1]] else []) ++ (if fR then [SOp R [SVar 1; SWild]] else []) /\
+  (Fits H x (SOp C [SVar 1]) <-> fC = true) /\
+  (Fits H x (SOp R [SVar 1; SWild]) <-> fR = true).
+Proof.
+  intros VC VR Wx. destruct x as [g xs]. cbn [ty_op].
+  assert (EC : fitsb H (TOp g xs) (SOp C [SVar 1]) = Nat.eqb g Bottom || Nat.eqb g C)
+    by (apply (fitsb_flat H W); auto using flat_var; rewrite VC; discriminate).
+  assert (ER : fitsb H (TOp g xs) (SOp R [SVar 1; SWild]) = Nat.eqb g Bottom || Nat.eqb g R)
+    by (apply (fitsb_flat H W); auto using flat_var, flat_wild; rewrite VR; discriminate).
+  cbv zeta. unfold accept_spec, keys_alts. cbn [existsb filter]. rewrite EC, ER, orb_false_r.
+  destruct (wf_alt_C C VC) as (WC & LC). destruct (wf_alt_R R VR) as (WR & LR).
+  split; [reflexivity|]. split.
+  - destruct (Nat.eqb g Bottom || Nat.eqb g C), (Nat.eqb g Bottom || Nat.eqb g R); reflexivity.
+  - split; apply Fits_iff_fitsb; auto.
+Qed.
+
 End Pat.
+
+(* ---------- the exported statements (programs written out) ---------- *)
+
+Definition result3 (r : option (err * nat) * list tyv * store) : option (err * nat) * list tyv :=
+  (fst (fst r), map (deep 3 (snd r)) (snd (fst r))).
+
+Theorem unary_pattern_stmt : forall H, wf_hier H -> forall F t fuel sc,
+  variance H F = [true] -> variance H t = [] -> t <> Bottom -> 9 <= fuel ->
+  let alts := [SOp F [SVar 1]] in
+  let x := TOp F [TOp t []] in
+  let r := run_cmds H fuel
+             [CInst (mkSchema 2 (SOp Function [SVar 0; SVar 1]) [SCElim (SVar 0) alts]);
+              CInst (mkSchema 0 (SOp F [SOp t []]) []);
+              CApply 0 1 true] 0 [] (empty_store sc) in
+  fst (fst r) = None /\
+  map (follow (snd r)) (snd (fst r)) = [O Function [V 0; V 1]; O F [O t []]; O t []] /\
+  map (deep 3 (snd r)) (snd (fst r)) =
+    [O Function [O F [O t []]; O t []]; O F [O t []]; O t []] /\
+  c_bound (cell_of (snd r) 1) = Some (O t []) /\
+  accept_spec H x alts = true /\
+  (forall alt, In alt alts -> Fits H x alt).
+Proof.
+  intros H W F t fuel sc VF Vt NB L. cbv zeta.
+  change (run_cmds H fuel _ 0 [] (empty_store sc))
+    with (run_cmds H fuel (app_prog (unary_schema F) (TOp F [TOp t []])) 0 [] (empty_store sc)).
+  rewrite (engine_unary_ok H W F t fuel sc VF Vt NB L). cbn [fst snd].
+  destruct (spec_unary_ok H W F (TOp t []) VF (wf_base H t Vt)) as (A & Ft).
+  repeat split; try reflexivity; try exact A.
+  intros alt [<-|[]]. exact Ft.
+Qed.
+
+(* F(Bottom) and Bottom itself are accepted as well (they fit), but then b is
+   NOT determined: the result is the unresolved, unbounded variable b *)
+Theorem unary_pattern_bottom_stmt : forall H, wf_hier H -> forall F fuel sc,
+  variance H F = [true] -> 9 <= fuel ->
+  let alts := [SOp F [SVar 1]] in
+  let sig := mkSchema 2 (SOp Function [SVar 0; SVar 1]) [SCElim (SVar 0) alts] in
+  let r1 := run_cmds H fuel [CInst sig; CInst (mkSchema 0 (SOp F [SOp Bottom []]) []); CApply 0 1 true]
+                     0 [] (empty_store sc) in
+  let r2 := run_cmds H fuel [CInst sig; CInst (mkSchema 0 (SOp Bottom []) []); CApply 0 1 true]
+                     0 [] (empty_store sc) in
+  (fst r1 = (None, [O Function [V 0; V 1]; O F [O Bottom []]; V 1]) /\
+   cell_of (snd r1) 1 = mkCell false None None None 0 /\
+   accept_spec H (TOp F [TOp Bottom []]) alts = true) /\
+  (fst r2 = (None, [O Function [V 0; V 1]; O Bottom []; V 1]) /\
+   cell_of (snd r2) 1 = mkCell false None None None 0 /\
+   accept_spec H (TOp Bottom []) alts = true).
+Proof.
+  intros H W F fuel sc VF L. cbv zeta. split.
+  - change (run_cmds H fuel _ 0 [] (empty_store sc))
+      with (run_cmds H fuel (app_prog (unary_schema F) (TOp F [TOp Bottom []])) 0 [] (empty_store sc)).
+    rewrite (engine_unary_bot H W F fuel sc VF L). cbn [fst snd].
+    repeat split; try reflexivity.
+    apply (spec_unary_ok H W F (TOp Bottom []) VF). apply wf_base. apply (var_bot H W).
+  - change (run_cmds H fuel _ 0 [] (empty_store sc))
+      with (run_cmds H fuel (app_prog (unary_schema F) (TOp Bottom [])) 0 [] (empty_store sc)).
+    rewrite (engine_unary_bottom H W F [] fuel sc VF L) by (cbn; lia). cbn [fst snd].
+    repeat split; try reflexivity.
+    all: try apply (spec_unary_bottom H W F [] VF).
+Qed.
+
+Theorem unary_pattern_reject_stmt : forall H, wf_hier H -> forall F x fuel sc,
+  variance H F = [true] -> ty_op x <> Bottom -> ty_op x <> F -> 9 <= fuel -> ty_depth x < fuel ->
+  let alts := [SOp F [SVar 1]] in
+  let r := run_cmds H fuel
+             [CInst (mkSchema 2 (SOp Function [SVar 0; SVar 1]) [SCElim (SVar 0) alts]);
+              CInst (mkSchema 0 (sconc x) []);
+              CApply 0 1 true] 0 [] (empty_store sc) in
+  fst r = (Some (if basic H (ty_op x) then ESubtypeMismatch else ETypeMismatch, 2),
+           [O Function [V 0; V 1]; inj x]) /\
+  accept_spec H x alts = false /\
+  (forall alt, In alt alts -> ~ Fits H x alt).
+Proof.
+  intros H W F x fuel sc VF NB NF L LD. cbv zeta.
+  change (run_cmds H fuel _ 0 [] (empty_store sc))
+    with (run_cmds H fuel (app_prog (unary_schema F) x) 0 [] (empty_store sc)).
+  rewrite (engine_unary_reject H W F x fuel sc VF NB NF L LD). cbn [fst snd].
+  destruct (spec_unary_reject H W F x VF NB NF) as (A & NFt).
+  repeat split; try reflexivity; try exact A.
+  intros alt [<-|[]]. exact NFt.
+Qed.
+
+Section KeysStmt.
+  Variable H : hier.
+  Hypothesis W : wf_hier H.
+  Variables C R : nat.
+  Hypothesis VC : variance H C = [true].
+  Hypothesis VR : variance H R = [true; true].
+
+  Let altC := SOp C [SVar 1].
+  Let altR := SOp R [SVar 1; SWild].
+
+  Lemma keys_uniq x (fC fR : bool) : wf_ty H x ->
+    Nat.eqb (ty_op x) Bottom || Nat.eqb (ty_op x) C = fC ->
+    Nat.eqb (ty_op x) Bottom || Nat.eqb (ty_op x) R = fR ->
+    accept_spec H x [altC; altR] = fC || fR /\
+    filter (fitsb H x) [altC; altR] = (if fC then [altC] else []) ++ (if fR then [altR] else []) /\
+    (Fits H x altC <-> fC = true) /\ (Fits H x altR <-> fR = true).
+  Proof. intros Wx <- <-. exact (spec_keys H W C R x VC VR Wx). Qed.
+
+  Lemma altC_ne_altR : altC <> altR.
+  Proof. discriminate. Qed.
+End KeysStmt.
+
+Theorem keys_R_stmt : forall H, wf_hier H -> forall C R t1 t2 fuel sc,
+  variance H C = [true] -> variance H R = [true; true] ->
+  (variance H t1 = [] /\ t1 <> Top /\ t1 <> Bottom) ->
+  (variance H t2 = [] /\ t2 <> Top /\ t2 <> Bottom) -> 9 <= fuel ->
+  let alts := [SOp C [SVar 1]; SOp R [SVar 1; SWild]] in
+  let x := TOp R [TOp t1 []; TOp t2 []] in
+  let r := run_cmds H fuel
+             [CInst (mkSchema 2 (SOp Function [SVar 0; SOp C [SVar 1]]) [SCElim (SVar 0) alts]);
+              CInst (mkSchema 0 (SOp R [SOp t1 []; SOp t2 []]) []);
+              CApply 0 1 true] 0 [] (empty_store sc) in
+  fst (fst r) = None /\
+  map (deep 3 (snd r)) (snd (fst r)) =
+    [O Function [O R [O t1 []; O t2 []]; O C [O t1 []]]; O R [O t1 []; O t2 []]; O C [O t1 []]] /\
+  c_bound (cell_of (snd r) 1) = Some (O t1 []) /\
+  accept_spec H x alts = true /\
+  filter (fitsb H x) alts = [SOp R [SVar 1; SWild]] /\
+  (forall alt, In alt alts -> (Fits H x alt <-> alt = SOp R [SVar 1; SWild])).
+Proof.
+  intros H W C R t1 t2 fuel sc VC VR G1 G2 L. cbv zeta.
+  change (run_cmds H fuel _ 0 [] (empty_store sc))
+    with (run_cmds H fuel (app_prog (keys_schema C R) (TOp R [TOp t1 []; TOp t2 []])) 0 [] (empty_store sc)).
+  rewrite (engine_keys_R H W C R t1 t2 fuel sc VC VR G1 G2 L). cbn [fst snd].
+  destruct (keys_ops H W C R VC VR) as (C' & R' & EC & ER & NCR & NRC & NCF).
+  assert (Wx : wf_ty H (TOp R [TOp t1 []; TOp t2 []])).
+  { apply wf_ty_unfold. rewrite VR. split; auto.
+    repeat constructor; apply wf_base; [apply G1|apply G2]. }
+  destruct (keys_uniq H W C R VC VR _ false true Wx) as (A & Fl & FC & FR).
+  { subst. cbn [ty_op]. cbn. exact NRC. }
+  { subst. cbn [ty_op]. cbn. apply Nat.eqb_refl. }
+  split; [reflexivity|]. split; [reflexivity|]. split; [reflexivity|].
+  split; [exact A|]. split; [exact Fl|].
+  intros alt [<-|[<-|[]]]; split.
+  - intros Ft. apply FC in Ft. discriminate.
+  - intros E. now apply altC_ne_altR in E.
+  - reflexivity.
+  - intros _. now apply FR.
+Qed.
+
+Theorem keys_C_stmt : forall H, wf_hier H -> forall C R t fuel sc,
+  variance H C = [true] -> variance H R = [true; true] ->
+  (variance H t = [] /\ t <> Top /\ t <> Bottom) -> 9 <= fuel ->
+  let alts := [SOp C [SVar 1]; SOp R [SVar 1; SWild]] in
+  let x := TOp C [TOp t []] in
+  let r := run_cmds H fuel
+             [CInst (mkSchema 2 (SOp Function [SVar 0; SOp C [SVar 1]]) [SCElim (SVar 0) alts]);
+              CInst (mkSchema 0 (SOp C [SOp t []]) []);
+              CApply 0 1 true] 0 [] (empty_store sc) in
+  fst (fst r) = None /\
+  map (deep 3 (snd r)) (snd (fst r)) =
+    [O Function [O C [O t []]; O C [O t []]]; O C [O t []]; O C [O t []]] /\
+  c_bound (cell_of (snd r) 1) = Some (O t []) /\
+  accept_spec H x alts = true /\
+  filter (fitsb H x) alts = [SOp C [SVar 1]] /\
+  (forall alt, In alt alts -> (Fits H x alt <-> alt = SOp C [SVar 1])).
+Proof.
+  intros H W C R t fuel sc VC VR G1 L. cbv zeta.
+  change (run_cmds H fuel _ 0 [] (empty_store sc))
+    with (run_cmds H fuel (app_prog (keys_schema C R) (TOp C [TOp t []])) 0 [] (empty_store sc)).
+  rewrite (engine_keys_C H W C R t fuel sc VC VR G1 L). cbn [fst snd].
+  destruct (keys_ops H W C R VC VR) as (C' & R' & EC & ER & NCR & NRC & NCF).
+  assert (Wx : wf_ty H (TOp C [TOp t []])).
+  { apply wf_ty_unfold. rewrite VC. split; auto.
+    repeat constructor; apply wf_base; apply G1. }
+  destruct (keys_uniq H W C R VC VR _ true false Wx) as (A & Fl & FC & FR).
+  { subst. cbn [ty_op]. cbn. apply Nat.eqb_refl. }
+  { subst. cbn [ty_op]. cbn. exact NCR. }
+  split; [reflexivity|]. split; [reflexivity|]. split; [reflexivity|].
+  split; [exact A|]. split; [exact Fl|].
+  intros alt [<-|[<-|[]]]; split.
+  - reflexivity.
+  - intros _. now apply FC.
+  - intros Ft. apply FR in Ft. discriminate.
+  - intros E. symmetry in E. now apply altC_ne_altR in E.
+Qed.
+
+Theorem keys_base_stmt : forall H, wf_hier H -> forall C R t fuel sc,
+  variance H C = [true] -> variance H R = [true; true] ->
+  variance H t = [] -> t <> Bottom -> 9 <= fuel ->
+  let alts := [SOp C [SVar 1]; SOp R [SVar 1; SWild]] in
+  let x := TOp t [] in
+  let r := run_cmds H fuel
+             [CInst (mkSchema 2 (SOp Function [SVar 0; SOp C [SVar 1]]) [SCElim (SVar 0) alts]);
+              CInst (mkSchema 0 (SOp t []) []);
+              CApply 0 1 true] 0 [] (empty_store sc) in
+  fst r = (Some (EConstraintViolation, 2), [O Function [V 0; O C [V 1]]; O t []]) /\
+  accept_spec H x alts = false /\
+  filter (fitsb H x) alts = [] /\
+  (forall alt, In alt alts -> ~ Fits H x alt).
+Proof.
+  intros H W C R t fuel sc VC VR Vt NB L. cbv zeta.
+  change (run_cmds H fuel _ 0 [] (empty_store sc))
+    with (run_cmds H fuel (app_prog (keys_schema C R) (TOp t [])) 0 [] (empty_store sc)).
+  destruct (engine_keys_base H W C R t fuel sc VC VR Vt NB L) as (s' & ->). cbn [fst snd].
+  assert (NC : Nat.eqb t C = false) by (apply Nat.eqb_neq; intros ->; rewrite VC in Vt; discriminate).
+  assert (NR : Nat.eqb t R = false) by (apply Nat.eqb_neq; intros ->; rewrite VR in Vt; discriminate).
+  apply Nat.eqb_neq in NB.
+  destruct (keys_uniq H W C R VC VR _ false false (wf_base H t Vt)) as (A & Fl & FC & FR).
+  { cbn [ty_op]. now rewrite NB, NC. }
+  { cbn [ty_op]. now rewrite NB, NR. }
+  repeat split; try reflexivity; try exact A; try exact Fl.
+  intros alt [<-|[<-|[]]] Ft.
+  - apply FC in Ft. discriminate.
+  - apply FR in Ft. discriminate.
+Qed.
